@@ -60,7 +60,7 @@ GENE_PAYLOADS = {
     6: "input-style CDS with codon_start=3 and a note",
 }
 PROTO_PAYLOADS = {0: "rule-based protocluster", 1: "sideloaded protocluster with extra qualifiers",
-                  2: "protocluster with type II PKS qualifier"}
+                  2: "protocluster with type II PKS qualifier (even universe positions: starter units and product classes only)"}
 SUB_PAYLOADS = {0: "subregion with label", 1: "sideloaded subregion with extra qualifiers"}
 CORE_TEXT = "PKS_KS"
 FREE_KEYS = ["db_xref", "EC_number", "inference", "function", "old_locus_tag", "organism", "mol_type", "strain",
@@ -295,9 +295,12 @@ class Driver:
             proto = Protocluster(core, extent, tool="rule-based-clusters", product=area["product"], cutoff=2 * SCALE,
                                  neighbourhood_range=SCALE, detection_rule=f"(cds(a and b) or minimum(2, [c, d])) for {area['product']}",
                                  product_category="PKS")
-            if area["pay"] == 2:
+            if area["pay"] == 2 and idx % 2:
                 proto.t2pks = T2PKSQualifier(["acetyl-CoA", "malonamyl-CoA"], ["7", "8|9"], ["angucycline", "tetracycline"],
                                              {"acetyl-CoA_7": 342.5, "malonamyl-CoA_8|9": 401.125})
+            elif area["pay"] == 2:
+                # a cluster without a chain length factor hit: starter units and product classes, no elongations / weights
+                proto.t2pks = T2PKSQualifier(["acetyl-CoA"], [], ["benzoisochromanequinone", "tetracenomycin"], {})
         self.keep.append(proto)
         self.record.add_protocluster(proto)
 
